@@ -304,3 +304,245 @@ Example C03_sorted_needs_order_example :
   let lt := fun a b : nat => negb (a =? b) in
   sort_ids lt [0; 1] = Ok [1; 0] /\ lt 0 1 = true /\ lt 1 0 = true.
 Proof. vm_compute. repeat split; reflexivity. Qed.
+
+(* ================================================================================================
+   9. Frame level: QFrame.Sort itself (qframe.go) on the physical model of a frame — Model/SortFrame.v
+   [sort_frame], the function the sort engine replays on every dumped frame (family SFrame of
+   Corr/SortCorr.v).  A frame is its column slice with the physical data arrays, its row index (ANY list of
+   row ids in range: permuted, a subset, with repeats) and its error flag; [abs] reads the logical table. *)
+From Coq Require Import Uint63.
+From QF Require Import Model.Ops Model.SortFrame Proofs.SortFrameProofs.
+(* Model.Frame and Corr.SortCorr both define f_isnan / f_lt; below they are always qualified *)
+From QF Require Import Model.Frame.
+
+(* 9a. The statement of the property for Sort on frames.  [orders_known]: every Order names a column of the
+   frame.  [row_lt f orders p q]: the lexicographic comparison of the physical rows p and q on the sort
+   cells of the order columns (C03_frame_sort_cell_order below: natural order per type, null / NaN smallest,
+   largest with NullLast, Reverse inverting the complete order of the key). *)
+Definition C03_frame_full_statement : Prop :=
+  forall (f : frame) (orders : list order),
+    wf_frame f = true -> ferr f = false -> orders_known f orders = true ->
+    exists g t t', sort_frame f orders = Ok g /\
+      (* the columns are physically untouched, no error, the index holds the same row ids as often as before *)
+      cols g = cols f /\ ferr g = false /\ Permutation (ix g) (ix f) /\
+      (* the logical tables: same names and types, the rows rearranged *)
+      abs f = Ok t /\ abs g = Ok t' /\ tnames t' = tnames t /\ ttypes t' = ttypes t /\
+      Permutation (trows t') (trows t) /\
+      (* rows stay whole: the i-th row of the result is the receiver's row at the i-th row id of the new index *)
+      (forall i a, nth_error (ix g) i = Some a ->
+         exists row, row_at f a = Ok row /\ nth_error (trows t') i = Some row) /\
+      (* no row is followed, at any distance, by a row that is smaller *)
+      (forall i j a b, i < j -> nth_error (ix g) i = Some a -> nth_error (ix g) j = Some b ->
+         row_lt f orders b a = Ok false).
+
+Theorem C03_frame_sort : C03_frame_full_statement.
+Proof. exact frame_sort_full. Qed.
+Print Assumptions C03_frame_sort.
+
+(* a frame with a column of every type (NaN, signalling NaN, -0, +0, -Inf; null strings; enum with declared
+   order z, a, m and a null) and an index with a repeated row id satisfies the premises *)
+Definition C03_example_frame : frame :=
+  mkFrame [(bs 1 0x69, ICol [3; -1; 3; 0; 7; -1]%Z);
+           (bs 1 0x66, FCol [0x7ff8000000000001; 0x8000000000000000; 0x0; 0x3ff0000000000000;
+                              0xfff0000000000000; 0x7ff0000000000001]%N);
+           (bs 1 0x62, BCol [true; false; true; true; false; false]);
+           (bs 1 0x73, SCol [Some (bs 1 0x62); None; Some (bs 0 0x0); Some (bs 2 0x6162); None; Some (bs 1 0x61)]);
+           (bs 1 0x65, ECol [1; 255; 0; 2; 0; 1]%N [bs 1 0x7a; bs 1 0x61; bs 1 0x6d] false)]
+          [5; 0; 3; 3; 1; 4; 2] false.
+
+Example C03_frame_sort_example :
+  let orders := [(bs 1 0x65, true, true); (bs 1 0x66, false, false)] in
+  wf_frame C03_example_frame = true /\ ferr C03_example_frame = false /\
+  orders_known C03_example_frame orders = true /\
+  sort_frame C03_example_frame orders = Ok (with_ix C03_example_frame [1; 3; 3; 5; 0; 4; 2]).
+Proof. vm_compute. repeat split; reflexivity. Qed.
+
+(* 9b. The same with the order given by the key list of the sorter theorems (spec_lt over frame_keys): the
+   columns the orders name, decoded as Corr/SortCorr.v decodes the cells the harness sends. *)
+Theorem C03_frame_sort_keys (f : frame) (orders : list order) (keys : list keyspec) :
+  wf_frame f = true -> ferr f = false -> frame_keys f orders = Some keys ->
+  exists g, sort_frame f orders = Ok g /\
+    cols g = cols f /\ ferr g = false /\ Permutation (ix g) (ix f) /\ wf_frame g = true /\
+    forall i j a b, i < j -> nth_error (ix g) i = Some a -> nth_error (ix g) j = Some b ->
+                    spec_lt keys b a = false.
+Proof. exact (frame_sort_ok f orders keys). Qed.
+Print Assumptions C03_frame_sort_keys.
+
+Theorem C03_frame_keys_known (f : frame) (orders : list order) :
+  orders_known f orders = true <-> exists keys, frame_keys f orders = Some keys.
+Proof. exact (frame_keys_known f orders). Qed.
+Print Assumptions C03_frame_keys_known.
+
+(* 9c. Rows stay whole: whatever frames the model returns, the multiset of logical rows is unchanged *)
+Theorem C03_frame_sort_rows (f : frame) (orders : list order) (keys : list keyspec) (g : frame) (t t' : table) :
+  wf_frame f = true -> ferr f = false -> frame_keys f orders = Some keys ->
+  sort_frame f orders = Ok g -> abs f = Ok t -> abs g = Ok t' ->
+  Permutation (trows t') (trows t) /\ tnames t' = tnames t /\ ttypes t' = ttypes t.
+Proof. exact (frame_sort_rows f orders keys g t t'). Qed.
+Print Assumptions C03_frame_sort_rows.
+
+(* 9d. Errors.  A failed receiver is returned as it is (sticky); an order that names no column gives Err
+   whatever else is asked; without any order the receiver itself is returned. *)
+Theorem C03_frame_sort_err_sticky (f : frame) (orders : list order) :
+  ferr f = true -> sort_frame f orders = Ok f.
+Proof. exact (frame_sort_sticky f orders). Qed.
+Print Assumptions C03_frame_sort_err_sticky.
+
+Theorem C03_frame_sort_err_unknown (f : frame) (orders : list order) :
+  ferr f = false -> orders_known f orders = false -> sort_frame f orders = Ok (with_err f).
+Proof. exact (frame_sort_unknown f orders). Qed.
+Print Assumptions C03_frame_sort_err_unknown.
+
+Example C03_frame_sort_err_example :
+  let orders := [(bs 1 0x65, true, true); (bs 1 0x45, false, false)] in
+  ferr C03_example_frame = false /\ orders_known C03_example_frame orders = false /\
+  ferr (with_err C03_example_frame) = true /\
+  orders_known (with_err C03_example_frame) [(bs 1 0x65, true, true)] = true.
+Proof. vm_compute. repeat split; reflexivity. Qed.
+
+Theorem C03_frame_sort_no_orders (f : frame) : sort_frame f [] = Ok f.
+Proof. exact (frame_sort_no_orders f). Qed.
+Print Assumptions C03_frame_sort_no_orders.
+
+(* 9e. No panic: on every well-formed frame (whatever its error flag, its index and the orders) Sort
+   answers with a well-formed frame; it carries an error exactly when the receiver did or an order names no
+   column.  In particular every c.data[i] of every Compare is in range and the sorter's loops terminate. *)
+Theorem C03_frame_sort_no_panic (f : frame) (orders : list order) :
+  wf_frame f = true ->
+  exists g, sort_frame f orders = Ok g /\ wf_frame g = true /\
+    ferr g = ferr f || negb (orders_known f orders).
+Proof. exact (frame_sort_no_panic f orders). Qed.
+Print Assumptions C03_frame_sort_no_panic.
+
+(* the premise is needed: a row id outside a key column is a Go panic in Compare (the model's range check) *)
+Example C03_frame_sort_needs_wf_example :
+  let f := mkFrame [(bs 1 0x69, ICol [3; -1]%Z)] [0; 2] false in
+  wf_frame f = false /\ sort_frame f [(bs 1 0x69, false, false)] = Panic.
+Proof. vm_compute. split; reflexivity. Qed.
+
+(* 9f. What the order is.  Sorter.Less over the Comparables of the order columns is model_lt over the keys
+   of the frame, hence (C03_model_lt_is_spec) the order worded by the property ... *)
+Theorem C03_frame_less_is_model_lt (f : frame) (orders : list order) (keys : list keyspec) :
+  frame_keys f orders = Some keys ->
+  exists cs, comparables f orders = Some cs /\
+    (forall a b, less_keys (map snd cs) a b = model_lt keys a b) /\
+    Forall (fun c => exists name, lookup_col f name = Some c) (map fst cs).
+Proof. exact (frame_keys_some_comparables f orders keys). Qed.
+Print Assumptions C03_frame_less_is_model_lt.
+
+Theorem C03_frame_comparable_is_key_compare (c : coldata) (rev nl : bool) (a b : nat) :
+  col_comparable c rev nl a b = key_compare (col_key c, (rev, nl)) a b.
+Proof. exact (col_comparable_key c rev nl a b). Qed.
+Print Assumptions C03_frame_comparable_is_key_compare.
+
+(* ... and, on the cells: comparing two row ids under one key is comparing the two sort cells the rows hold
+   in the column ([skey_lt]: [skey_vlt] = numeric / IEEE with -0 = +0 / false < true / byte-wise / declared
+   position; null or NaN smallest, largest with NullLast; two nulls tie; Reverse swaps the arguments) *)
+Theorem C03_frame_sort_cell_order (c : coldata) (rev nl : bool) (p q : nat) (x y : skey) :
+  skey_at c p = Ok x -> skey_at c q = Ok y ->
+  key_spec (col_key c, (rev, nl)) p q = skey_lt rev nl x y.
+Proof. exact (key_spec_cells c rev nl p q x y). Qed.
+Print Assumptions C03_frame_sort_cell_order.
+
+Example C03_frame_sort_cell_order_example :
+  skey_at (ECol [1; 255; 0]%N [bs 1 0x7a; bs 1 0x61] false) 0 = Ok (SKEnum (Some 1%N)) /\
+  skey_at (ECol [1; 255; 0]%N [bs 1 0x7a; bs 1 0x61] false) 1 = Ok (SKEnum None) /\
+  skey_lt true true (SKEnum None) (SKEnum (Some 1%N)) = true.
+Proof. vm_compute. repeat split; reflexivity. Qed.
+
+(* a sort cell is the logical cell of the typed views; an enum cell is the string at its declared position *)
+Theorem C03_frame_sort_cell_is_cell (c : coldata) (p : nat) :
+  cell_at c p = do k <- skey_at c p; skey_cell (col_values c) k.
+Proof. exact (cell_at_skey c p). Qed.
+Print Assumptions C03_frame_sort_cell_is_cell.
+
+(* the lexicographic comparison of two rows on their sort cells is spec_lt over the keys of the frame *)
+Theorem C03_frame_row_order (f : frame) (orders : list order) (keys : list keyspec) (p q : nat) :
+  wf_frame f = true -> (p < phys_len f)%nat -> (q < phys_len f)%nat ->
+  frame_keys f orders = Some keys -> row_lt f orders p q = Ok (spec_lt keys p q).
+Proof. exact (frame_row_lt f orders keys p q). Qed.
+Print Assumptions C03_frame_row_order.
+
+(* 9f'. The ordering clause on the LOGICAL rows of the result table alone.  [trow_lt f orders r1 r2]: the
+   lexicographic comparison of two rows of cells; the cell of an order column is taken at the position the
+   by-name map gives; [cell_lt]: numeric / IEEE (-0 = +0) / false < true / byte-wise / position of the string in
+   the declared values; null or NaN smallest, largest with NullLast; Reverse swaps the arguments.
+   Premise [enum_values_nodup]: the declared values of every enum column are duplicate-free (what the enum
+   factory builds: C17); without it the declared position of a string is not determined by the string. *)
+Definition C03_frame_logical_statement : Prop :=
+  forall (f : frame) (orders : list order),
+    wf_frame f = true -> ferr f = false -> orders_known f orders = true -> enum_values_nodup f ->
+    exists g t t', sort_frame f orders = Ok g /\ abs f = Ok t /\ abs g = Ok t' /\
+      tnames t' = tnames t /\ ttypes t' = ttypes t /\ Permutation (trows t') (trows t) /\
+      forall i j ri rj, i < j -> nth_error (trows t') i = Some ri -> nth_error (trows t') j = Some rj ->
+                        trow_lt f orders rj ri = Some false.
+
+Theorem C03_frame_sort_logical : C03_frame_logical_statement.
+Proof. exact frame_sort_logical. Qed.
+Print Assumptions C03_frame_sort_logical.
+
+Example C03_frame_sort_logical_example : enum_values_nodup C03_example_frame.
+Proof.
+  intros n c H. cbn [C03_example_frame cols In] in H.
+  destruct H as [H|[H|[H|[H|[H|[]]]]]]; inversion H; subst; cbn [col_values]; try constructor.
+  all: try (intro HH; vm_compute in HH; intuition discriminate).
+  repeat constructor; intro HH; vm_compute in HH; intuition discriminate.
+Qed.
+
+Theorem C03_frame_cell_order (values : list bytes) (rev nl : bool) (x y : skey) (a b : cell) :
+  NoDup values -> skey_cell values x = Ok a -> skey_cell values y = Ok b ->
+  skey_lt rev nl x y = cell_lt values rev nl a b.
+Proof. exact (skey_lt_cells values rev nl x y a b). Qed.
+Print Assumptions C03_frame_cell_order.
+
+(* the premise is needed: with a value declared twice two equal strings are ordered by Sort *)
+Example C03_frame_cell_order_needs_nodup_example :
+  let values := [bs 1 0x7a; bs 1 0x7a] in
+  skey_cell values (SKEnum (Some 0%N)) = Ok (CEnum (Some (bs 1 0x7a))) /\
+  skey_cell values (SKEnum (Some 1%N)) = Ok (CEnum (Some (bs 1 0x7a))) /\
+  skey_lt false false (SKEnum (Some 0%N)) (SKEnum (Some 1%N)) = true /\
+  cell_lt values false false (CEnum (Some (bs 1 0x7a))) (CEnum (Some (bs 1 0x7a))) = false.
+Proof. vm_compute. repeat split; reflexivity. Qed.
+
+(* the two readings of float64 bit patterns (Model/Frame.v and Corr/SortCorr.v) are the same functions *)
+Theorem C03_float_readings_agree (a b : N) :
+  Frame.f_isnan a = SortCorr.f_isnan a /\ Frame.f_lt a b = SortCorr.f_lt a b.
+Proof. exact (conj (f_isnan_eq a) (f_lt_eq a b)). Qed.
+Print Assumptions C03_float_readings_agree.
+
+(* 9g. The oracle the engine runs on every dumped result (code 2) is sound, and it accepts the model's own
+   result, so a result that passes the exact comparison can never be rejected by it. *)
+Theorem C03_frame_oracle_sound (f : frame) (orders : list order) (keys : list keyspec) (out : frame) :
+  ferr f = false -> frame_keys f orders = Some keys -> sort_frame_oracle f orders out = true ->
+  ferr out = false /\ cols_obs_eqb (cols f) (cols out) = true /\
+  Permutation (ix out) (ix f) /\
+  (forall i j a b, i < j -> nth_error (ix out) i = Some a -> nth_error (ix out) j = Some b ->
+     spec_lt keys b a = false) /\
+  rows_whole_b f out = true.
+Proof. exact (sort_frame_oracle_sound f orders keys out). Qed.
+Print Assumptions C03_frame_oracle_sound.
+
+Theorem C03_frame_oracle_sound_err (f : frame) (orders : list order) (out : frame) :
+  (ferr f = true \/ orders_known f orders = false) -> sort_frame_oracle f orders out = true -> ferr out = true.
+Proof. exact (sort_frame_oracle_sound_err f orders out). Qed.
+Print Assumptions C03_frame_oracle_sound_err.
+
+Theorem C03_frame_oracle_accepts_model (f : frame) (orders : list order) (g : frame) :
+  wf_frame f = true -> sort_frame f orders = Ok g -> sort_frame_oracle f orders g = true.
+Proof. exact (sort_frame_oracle_accepts_model f orders g). Qed.
+Print Assumptions C03_frame_oracle_accepts_model.
+
+(* the check function of the engine on the example: the model's result passes (0); an index with an
+   inversion, a lost row or a modified column is rejected by the oracle (2); another arrangement of tied rows
+   is accepted by the oracle and reported as a difference from the model (1) *)
+Example C03_frame_check_example :
+  let cs := cols C03_example_frame in
+  let fin := (cs, [5; 0; 3; 3; 1; 4; 2]%uint63, false) in
+  let orders := [(bs 1 0x65, true, true); (bs 1 0x66, false, false)] in
+  check_sframe true fin orders (cs, [1; 3; 3; 5; 0; 4; 2]%uint63, false) = 0%N /\
+  check_sframe true fin orders (cs, [1; 3; 3; 0; 5; 4; 2]%uint63, false) = 1%N /\
+  check_sframe true fin orders (cs, [1; 3; 3; 5; 0; 2; 4]%uint63, false) = 2%N /\
+  check_sframe true fin orders (cs, [1; 3; 5; 5; 0; 4; 2]%uint63, false) = 2%N /\
+  check_sframe true fin orders (tl cs, [1; 3; 3; 5; 0; 4; 2]%uint63, false) = 2%N /\
+  check_sframe true fin orders (cs, [1; 3; 3; 5; 0; 4; 2]%uint63, true) = 2%N.
+Proof. vm_compute. repeat split; reflexivity. Qed.
